@@ -11,7 +11,11 @@
     (chunks are written out with the line ending of the file they stand in), chunks that mention
     the word "include" without being a directive, and decoy files (the same relative name exists
     below the including file's / another directory).
-    Negative configurations (machine limit 4 / 6, resolving against the cwd / the including file's
+    Files may be named by several directives (a DAG: the chunks then come twice in the expected
+    sequence) and chunks may show block-comment look-alikes (/* and */ inside string values or
+    # comments).
+    Negative configurations (a never-unwound "seen" set refusing a file named twice, a textual /* */
+    scan switching directive recognition off, machine limit 4 / 6, resolving against the cwd / the including file's
     directory, includer-first / cwd-first lookup, included files read with translated line ends,
     the limit fired by the mere word at level 5, no fairness) must be rejected by TLC.
 (G) verdict: TLC emits each graph with its expected outcome (the flattened chunk sequence, or the
@@ -48,7 +52,8 @@ START_ROLES = {"opener", "end", "key", "kvopen", "projopen", "ptsopen"}
 BASE = dict(MaxFiles=4, MaxFan=2, MaxLines=3, MaxDepth=7, MaxBack=1, MaxMissing=1, MaxNested=5, PropNested=5,
             Dirs={0}, Styles={"rel"}, Quotes={"none"}, Cms={False}, Wants={0}, Caps={8}, Entries={"file"},
             Mode="all", ExactDefects=False, EnvChdir=False, ResolveAgainst="root",
-            Nls={"lf"}, Words={False}, MaxDecoy=0, ReadMode="verbatim", DepthGuard="directive")
+            Nls={"lf"}, Words={False}, MaxDecoy=0, ReadMode="verbatim", DepthGuard="directive",
+            MaxShare=0, Looks={"none"}, CycleGuard="none", CommentScan="none")
 
 
 # ------------------------------------------------------------------------------------------- (M)
@@ -64,7 +69,9 @@ def model_configs(tier):
                              Entries={"file", "string"}, MaxBack=0), False),
             ("surface", dict(MaxFiles=3, MaxLines=2, MaxFan=1, Dirs={0, 1}, MaxBack=0, MaxMissing=0, MaxDecoy=2,
                              Nls={"lf", "crlf"}), False),
-            ("words", dict(MaxFiles=3, MaxLines=2, MaxFan=1, MaxBack=0, Words={False, True}), False),
+            ("words", dict(MaxFiles=3, MaxLines=2, MaxFan=1, MaxBack=0, Words={False, True},
+                           Looks={"none", "open", "close"}), False),
+            ("share", dict(MaxFiles=4, MaxLines=2, MaxMissing=0, MaxShare=2), False),
             ("live_chdir", dict(MaxFiles=3, MaxLines=2, MaxFan=1, MaxMissing=0, Dirs={0, 1}, EnvChdir=True), True),
             ("live_chain", dict(MaxFiles=8, MaxFan=1, MaxLines=1), True),
         ]
@@ -76,7 +83,8 @@ def model_configs(tier):
                          Entries={"file", "string"}, MaxBack=0), False),
         ("surface", dict(MaxFiles=3, MaxLines=2, MaxFan=1, Dirs={0, 1}, MaxBack=0, MaxMissing=0, MaxDecoy=2,
                          Nls={"lf", "crlf"}, Words={False, True}, Entries={"file", "string"}), False),
-        ("words", dict(MaxFiles=4, MaxLines=2, Words={False, True}), False),
+        ("words", dict(MaxFiles=4, MaxLines=2, Words={False, True}, Looks={"none", "open", "close"}), False),
+        ("share", dict(MaxFiles=5, MaxLines=2, MaxShare=2), False),
         ("live_chdir", dict(MaxFiles=3, MaxLines=3, Dirs={0, 1}, EnvChdir=True), True),
         ("live_chain", dict(MaxFiles=8, MaxFan=1, MaxLines=2, MaxMissing=0), True),
     ]
@@ -91,8 +99,6 @@ def negative_configs(tier):
         ("neg_nested6", dict(chain, MaxNested=6), None, [], {"Equiv", "Bounded", "DepthIff"}),
     ]
     neg += [
-        ("neg_cwd", dict(res, ResolveAgainst="cwd", EnvChdir=True), None, [],
-         {"Equiv", "ErrMissingSound", "MissingIff", "PrefixOK"}),
         ("neg_unfair", dict(MaxFiles=2, MaxLines=1, MaxBack=0, MaxMissing=0), "SpecUnfair", ["Halts"], {"temporal"}),
         # the three machine variants below agree with the property on every graph without a decoy / a CRLF
         # file / a chunk mentioning the word: they are told apart only because the universe holds those
@@ -102,9 +108,17 @@ def negative_configs(tier):
                                ReadMode="translate-included"), None, [], {"Equiv", "PrefixOK"}),
         ("neg_word_guard", dict(chain, MaxFiles=6, Words={False, True}, DepthGuard="word"), None, [],
          {"ErrDepthSound", "DepthIff"}),
+        # (told apart only by a file named twice / a chunk showing a block-comment opener)
+        ("neg_seen", dict(MaxFiles=3, MaxFan=2, MaxLines=2, MaxBack=0, MaxMissing=0, MaxShare=1, CycleGuard="seen"),
+         None, [], {"ErrDepthSound", "DepthIff"}),
+        ("neg_comment_scan", dict(MaxFiles=2, MaxFan=1, MaxLines=2, MaxBack=0, MaxMissing=0,
+                                  Looks={"none", "open", "close", "pair"}, CommentScan="textual"),
+         None, [], {"Equiv", "PrefixOK"}),
     ]
     if tier != "quick":
         neg += [
+            ("neg_cwd", dict(res, ResolveAgainst="cwd", EnvChdir=True), None, [],
+             {"Equiv", "ErrMissingSound", "MissingIff", "PrefixOK"}),
             ("neg_includer", dict(res, ResolveAgainst="includer"), None, [],
              {"Equiv", "ErrMissingSound", "MissingIff", "PrefixOK"}),
             ("neg_cwd_first", dict(res, MaxFiles=2, MaxDecoy=1, ResolveAgainst="cwd-first", EnvChdir=True), None, [],
@@ -164,11 +178,13 @@ def batches(tier):
     w = dict(MaxFiles=12, MaxFan=fan, MaxLines=2 * fan + 1, MaxDepth=7, MaxBack=0, MaxMissing=0,
              Dirs={0, 1, 2, 3}, Styles={"rel", "abs"}, Quotes={"none", "single", "double"}, Cms={False, True},
              Wants={0, 1, 2, 3, 4, 5}, Caps={2, 3, 4, 6, 8, 10, 12}, Entries={"file", "string"}, Mode="walk",
-             ExactDefects=True, Nls={"lf", "crlf"}, Words={False, True}, MaxDecoy=3)
+             ExactDefects=True, Nls={"lf", "crlf"}, Words={False, True}, MaxDecoy=3,
+             Looks={"none", "none", "open", "close", "pair"})
     k = 1 if q else 70
     return [
-        ("ok", dict(w, MaxDepth=5), 190 * k),
-        ("deep", dict(w, Wants={4, 5, 6, 7}, Caps={6, 8, 10, 12}), 100 * k),
+        ("ok", dict(w, MaxDepth=5), 150 * k),
+        ("share", dict(w, MaxDepth=4, MaxShare=2, Wants={0, 1, 2, 3}, Caps={3, 4, 6, 8, 10}), 90 * k),
+        ("deep", dict(w, Wants={4, 5, 6, 7}, Caps={6, 8, 10, 12}), 80 * k),
         ("cycle", dict(w, MaxBack=1, Wants={0, 1, 2, 3, 4}), 50 * k),
         ("missing", dict(w, MaxMissing=1, Wants={0, 1, 2, 3, 4, 5, 6}), 60 * k),
         ("both", dict(w, MaxBack=1, MaxMissing=1), 20 * k),
@@ -218,7 +234,8 @@ def has_include(hist):
 
 def render(hist, cseed):
     """-> (lines of the whole document, cut candidates (0-based line indexes where a piece may start, > 0),
-           insertion candidates for directives kept as data (line index, enclosing block type))"""
+           insertion candidates for directives kept as data (line index, enclosing block type),
+           number of open blocks before each cut candidate)"""
     conc = concretise.Concretiser(cseed, strings=STRINGS)
     toks = conc.tokens(concretise.with_root(include_free(hist), docs.root_type(hist)))
     text, pos = concretise.assemble(toks)
@@ -228,6 +245,7 @@ def render(hist, cseed):
     cuts = []
     inserts = []
     stack = []
+    depth_of = {0: 0, len(lines): 0}
     # (a singleton block given twice keeps the last one only: directives are not put where the
     #  contract drops the whole block)
     singles = set(vocab.get()["tokens"]["singleton_composite_names"])
@@ -235,13 +253,14 @@ def render(hist, cseed):
         if t.first and t.role in START_ROLES:
             if ln > 1:
                 cuts.append(ln - 1)
+                depth_of[ln - 1] = len(stack)
                 if stack and not any(b in singles for b in stack[1:]):
                     inserts.append((ln - 1, stack[-1]))
         if t.role == "opener":
             stack.append(t.extra)
         elif t.role == "end":
             stack.pop()
-    return lines, cuts, inserts
+    return lines, cuts, inserts, depth_of
 
 
 # string contents of the documents: the shared pool, with more values that span lines (their line
@@ -251,8 +270,12 @@ def render(hist, cseed):
 STRINGS = [x[0] for x in concretise.STR_POOL] + [
     "multi\nline", "first line\nsecond line", "a\n\nb", "x\ny\nz", "abstract:\n  indented\n", "\nleading break",
     "two\nlines 'quoted'", "tab\there\nand a break", "one\ntwo", "para 1\n\npara 2\n",
+    "tiles/*.tif", "shp/*.shp", "a */ b", "*/*", "/* both */", "/*",
     "please include me", "wms_include_items", "gml_include_items all", "do not INCLUDE \"x.map\""]
 assert not any(ln.strip().lower().startswith("include") for x in STRINGS for ln in x.split("\n")[1:])
+LOOK_LINES = {"open": ["# tiles/*.tif", "  # see data/* for the rest", "#/*", "\t# DATA \"shp/*.shp\""],
+              "close": ["# */ done", "  # glob: */x.tif", "#*/"],
+              "pair": ["# /* old */", "  # a/*b*/c", "# */ and /* */"]}
 WORD_LINES = ["# include the roads here", "  # INCLUDE 'old/layers.map'", "#include", "\t# was: Include \"x.map\" # twice",
               "# gml_include_items", "  ## do not include"]
 
@@ -274,6 +297,68 @@ def directive_text(rng, ln, name):
     elif rng.random() < 0.2:
         s += rng.choice([" ", "\t"])
     return s
+
+
+def lay_out(rng, lines, cuts, depth_of, order):
+    """Cut the document into one piece per distinct chunk of `order` (the substitution sequence, in which a
+    chunk of a file that is named twice comes twice).  A chunk that comes once may be any run of whole
+    items; a chunk that comes again must be balanced (whole items and whole blocks, starting inside the
+    root block), so that the text is a document again when it is repeated; chunks repeated after the last
+    fresh chunk are empty.  -> {chunk: lines} or None when no chunk comes just once."""
+    first = list(dict.fromkeys(order))
+    k = len(first)
+    if k == 0:
+        return {}
+    count = {}
+    for c in order:
+        count[c] = count.get(c, 0) + 1
+    rep_ = {c for c in first if count[c] > 1}
+    cand = sorted(set(cuts))
+    if len(cand) >= k - 1:
+        tg = sorted(rng.sample(cand, k - 1))
+        if tg and rng.random() < 0.15:
+            tg[rng.randrange(len(tg))] = tg[0]          # an empty chunk now and then
+            tg.sort()
+    else:
+        tg = sorted(rng.choice(cand) if cand else len(lines) for _ in range(k - 1))
+    tg.append(len(lines))
+    if not rep_:
+        bounds = [0] + tg
+        return {c: list(lines[bounds[j]:bounds[j + 1]]) for j, c in enumerate(first)}
+    fresh = [j for j, c in enumerate(first) if c not in rep_]
+    if not fresh:
+        return None
+    tail_owner = fresh[-1]
+    seen_first = set()
+    last_first = 0
+    for p, c in enumerate(order):
+        if c not in seen_first:
+            seen_first.add(c)
+            last_first = p
+    empty = {c for c in order[last_first + 1:]} | {c for c in first[tail_owner + 1:]}
+    piece = {}
+    pos = 0
+    for j, c in enumerate(first):
+        if j == tail_owner:
+            end = len(lines)
+        elif c in empty:
+            end = pos
+        elif c in rep_:
+            ends = [pos]
+            if depth_of[pos] >= 1:
+                for b in cand:
+                    if b <= pos:
+                        continue
+                    if depth_of[b] < depth_of[pos]:
+                        break
+                    if depth_of[b] == depth_of[pos]:
+                        ends.append(b)
+            end = rng.choice(ends[1:7]) if len(ends) > 1 and rng.random() < 0.85 else pos
+        else:
+            end = max(pos, tg[j])
+        piece[c] = list(lines[pos:end])
+        pos = end
+    return piece
 
 
 def build_case(g, hist, cseed, rseed, idx):
@@ -312,25 +397,24 @@ def build_case(g, hist, cseed, rseed, idx):
             rel = "./" + rel
         return rel
 
-    lines, cuts, inserts = render(hist, cseed)
+    lines, cuts, inserts, depth_of = render(hist, cseed)
     order = [(x[0], x[1]) for x in (g["full"] or g["flat"])]
     contents = [(f + 1, i + 1) for f in range(n) for i, ln in enumerate(g["fs"][f]) if ln["k"] == "c"]
     if not order:
-        order = contents                      # cyclic graphs: the layout is immaterial
+        order = list(contents)                # cyclic graphs: the layout is immaterial
     order += [c for c in contents if c not in order]
-    k = len(order)
-    piece = {}
-    if k:
-        if len(cuts) >= k - 1:
-            cp = sorted(rng.sample(cuts, k - 1))
-            if cp and rng.random() < 0.15:
-                cp[rng.randrange(len(cp))] = cp[0]          # an empty chunk now and then
-                cp.sort()
-        else:
-            cp = sorted(rng.choice(cuts) if cuts else len(lines) for _ in range(k - 1))
-        bounds = [0] + cp + [len(lines)]
-        for j, c in enumerate(order):
-            piece[c] = list(lines[bounds[j]:bounds[j + 1]])
+    piece = lay_out(rng, lines, cuts, depth_of, order)
+    if piece is None:
+        if not g["allowed"]:
+            return None                       # every chunk comes twice: no document can be laid over it
+        piece = lay_out(rng, lines, cuts, depth_of, list(dict.fromkeys(order)))
+    k = len(piece)
+    # comment look-alikes inside # comments (string values showing them come from the string pool)
+    for (f, i) in contents:
+        lk = g["fs"][f - 1][i - 1].get("look", "none")
+        if lk != "none":
+            w = rng.choice(LOOK_LINES[lk])
+            piece[(f, i)] = [w] + piece[(f, i)] if rng.random() < 0.4 else piece[(f, i)] + [w]
     # chunks that mention the word include without being a directive: a comment line at an item boundary
     for (f, i) in contents:
         if g["fs"][f - 1][i - 1].get("word"):
@@ -679,6 +763,8 @@ def _pool_job(job):
     tmp = tempfile.mkdtemp(prefix="g%05d_" % idx, dir=_POOL_TMP)
     try:
         case = build_case(g, hist, cseed, rseed, idx)
+        if case is None:
+            return idx, 0, [("SKIP", "no document can be laid over the graph", None)], None
         ev, found = run_case(case, tmp, public=public, keep_public=keep_public)
         found = [(sig, what, replay_case_of(case, extra) if sig not in ("SKIP",) else None) for sig, what, extra in found]
         sample = {"graph": {k: g[k] for k in ("fs", "dir", "entry", "allowed", "flat")}, "files": case["files"]} if idx < 2 else None
